@@ -385,6 +385,7 @@ def C06(ck):
     rscen = kzreader.run_models(ck, rcfgs)
     kzreader.replay(ck, rscen, set())
     kzreader.record(ck, 'c06', 2000 if T else 400, thorough=T)
+    kzreader.record(ck, 'c06d', 0, thorough=T)
     kzwriter.record(ck, 'c04', 60 if T else 8, thorough=T)
     # the component that talks to the source: bit-level programs read back through sources delivering 1, 7, 8, 9, 13/5/64 ... bytes per
     # call, arrays larger than the internal buffer included (the same programs as C14; here only what depends on the chunking counts)
